@@ -858,6 +858,8 @@ class FuncGraph:
                     finally:
                         self.cur_fn = saved
             return self.mk('ref', (r,), node)
+        if name == 'Ellipsis':
+            return const(Ellipsis, node, self.fn)          # the name `Ellipsis` is the literal `...`
         if name in BUILTINS:
             return self.mk('ref', (('builtin', name),), node)
         return self.mk('unknown', ('name', name), node)
@@ -1167,6 +1169,17 @@ class FuncGraph:
             if new_items is not None:
                 self.bind(e.func.value.id, self.mk('list', (tuple(new_items),), e), env, e)
                 return const(None, e, self.fn)
+        if f.op == 'attr' and f.args[1] in ('append', 'extend') and plain and not kws and len(args) == 1 and isinstance(e.func, ast.Attribute) \
+                and isinstance(e.func.value, ast.Name) and e.func.value.id in env and env[e.func.value.id] is f.args[0] and not self._loops and self._list_valued(f.args[0]):
+            # xs = [i for i in ...]; xs.extend((a, b)) / xs.append(a): the name denotes the concatenation  xs + [a, b]  afterwards
+            tail = None
+            if f.args[1] == 'append':
+                tail = self.mk('list', ((args[0],),), e)
+            elif args[0].op in ('list', 'tuple') and not any(x.op == 'star' for x in args[0].args[0]):
+                tail = self.mk('list', (args[0].args[0],), e)
+            if tail is not None:
+                self.bind(e.func.value.id, self.mk('binop', ('Add', f.args[0], tail), e), env, e)
+                return const(None, e, self.fn)
         if f.op == 'attr' and f.args[1] == 'fill' and plain and len(args) == 1 and not kws and isinstance(e.func, ast.Attribute) and isinstance(e.func.value, ast.Name) \
                 and e.func.value.id in env and env[e.func.value.id] is f.args[0]:
             # x = np.empty(shape[, dtype]); x.fill(v)   is   x = np.full(shape, v[, dtype])
@@ -1219,6 +1232,8 @@ class FuncGraph:
                 return args[0]          # bool(a >= b) is the test itself
             if f.op == 'ref' and f.args[0] == ('builtin', 'len') and args[0].op == 'attr' and args[0].args[1] == 'shape':
                 return self.mk('attr', (args[0].args[0], 'ndim'), e)          # len(x.shape) is x.ndim
+            if f.op == 'ref' and f.args[0] in (('builtin', 'list'), ('builtin', 'tuple')) and args[0].op in ('tuple', 'list'):
+                return self.mk(f.args[0][1], (args[0].args[0],), e)          # list((a, b)) is [a, b]
         if plain and len(args) == 2 and not kws and f.op == 'ref' and f.args[0] == ('builtin', 'getattr') and args[1].op == 'const' and isinstance(args[1].args[0], str) \
                 and args[1].args[0].isidentifier():
             return self.load_attr(ast.Attribute(value=e.args[0], attr=args[1].args[0], ctx=ast.Load(), lineno=getattr(e, 'lineno', 0), col_offset=getattr(e, 'col_offset', 0),
@@ -1311,7 +1326,7 @@ class FuncGraph:
             return None
         if is_lambda and f.op != 'closure':
             return None
-        if callee in self._inline_stack or len(self._inline_stack) >= 3 or callee.vararg or callee.kwarg:
+        if callee in self._inline_stack or len(self._inline_stack) >= 3 or callee.kwarg:
             return None
         if any(a.op == 'star' for a in args) or any(k is None for k, _ in kws):
             return None
@@ -1323,9 +1338,12 @@ class FuncGraph:
             pass
         pos = callee.posonly + callee.args
         actual = pre + list(args)
-        if len(actual) > len(pos):
+        if len(actual) > len(pos) and not callee.vararg:
             return None
         bound = dict(zip(pos, actual))
+        if callee.vararg:
+            # f(a, *rest): the surplus positional arguments are the tuple `rest`
+            bound[callee.vararg] = self.mk('tuple', (tuple(actual[len(pos):]),), e)
         for k, v in kws:
             if k in bound or k not in callee.params:
                 return None
@@ -1368,6 +1386,22 @@ class FuncGraph:
                     if env[k] is a_:
                         env[k] = v
         return subst_fall(ret, const(None, e, self.fn))
+
+    @staticmethod
+    def _list_valued(t):
+        """a list comprehension, or a concatenation that starts with one / with a list literal"""
+        for _ in range(20):
+            if not isinstance(t, T):
+                return False
+            if t.op == 'comp':
+                return t.args[0] == 'list'
+            if t.op == 'list':
+                return True
+            if t.op == 'binop' and t.args[0] == 'Add':
+                t = t.args[1]
+                continue
+            return False
+        return False
 
     @staticmethod
     def _rooted_at(t, a, depth=0):
